@@ -227,6 +227,9 @@ class Universe:
                 for n in names:
                     if (gname, n) in uni.fail:
                         raise RuntimeError(f"VERIF-FAULT calc {gname}.{n}")
+                if g.get("delay_ms"):
+                    import time as _t
+                    _t.sleep(g["delay_ms"] / 1000.0)       # a slow source: everything that needs it is a LATE reader of the other data
                 if g.get("cols_by_opt"):
                     # option-dependent source data: the option group of the step selects the table
                     val = next(iter(features.features)).options.get(g["opt_key"])
@@ -255,9 +258,9 @@ class Universe:
             def calculate_feature(cls: Any, data: Any, features: Any, _f: Any = feats) -> Any:
                 names = sorted(f.get_name() for f in features.features)
                 uni.listener.on_enter(gname, names, columns_of(data), data, features)
-                if uni.spec.get("delay_ms"):
+                if uni.spec.get("delay_ms") or g.get("delay_ms"):
                     import time as _t
-                    _t.sleep(uni.spec["delay_ms"] / 1000.0)
+                    _t.sleep((g.get("delay_ms") or uni.spec["delay_ms"]) / 1000.0)
                 new: Dict[str, List[Any]] = {}
                 n_rows = nrows(data)
                 for n in names:
